@@ -241,7 +241,7 @@ pub fn str_to_dec(lit: &str) -> Result<(i128, isize), ParseDecimalError> {
     if lit.is_empty() {
         return Err(ParseDecimalError::Invalid);
     }
-    lit.skip_leading_zeroes();
+    let n_leading_zeroes = lit.len() - lit.skip_leading_zeroes().len();
     if lit.is_empty() {
         // There must have been atleast one zero. Ignore sign.
         return Ok((0, 0));
@@ -259,7 +259,8 @@ pub fn str_to_dec(lit: &str) -> Result<(i128, isize), ParseDecimalError> {
         }
     }
     let n_digits = n_int_digits + n_frac_digits;
-    if n_digits == 0 {
+    // leading zeroes are digits, too ("0.", "0e3")
+    if n_leading_zeroes + n_digits == 0 {
         return Err(ParseDecimalError::Invalid);
     }
     // check for overflow (an overflow during accumulation left
